@@ -121,7 +121,10 @@ def build(spec):
         sm.description = ch["desc"]
         sm.difficulty = ch["diff"]
         sm.difficulty_val = ch["meter"]
-        sm.bpms = SMBpmList([SMBpm(float(tl.ms_of_beat(F(b))), float(v)) for b, v in spec["tempo"]])
+        rows_ = [SMBpm(float(tl.ms_of_beat(F(b))), float(v)) for b, v in spec["tempo"]]
+        if spec.get("cls") == "unsorted":
+            rows_ = rows_[::-1]  # tempo rows not stored in time order
+        sm.bpms = SMBpmList(rows_)
         buckets = {k: [] for k in kinds}
         for kind, col, b0, b1 in ch["objects"]:
             t0 = float(tl.ms_of_beat(F(b0)))
